@@ -700,6 +700,37 @@ def applicable_checks(case):
 
 
 # --------------------------------------------------------------------------
+# text templates end to end from their source text (Model/TmplRaw.lean)
+
+def raw_model(cases):
+    """-> list of (prepared stream from the source | None, rendered | None)"""
+    if not cases:
+        return []
+    lines = []
+    for c in cases:
+        src = G.source(c['lang'], c['nodes'])
+        strict = lookup_of(c) == 'strict'
+        lines.append(proto.line(Atom('C04'), Atom('rawcompile'), Atom(c['lang']), strict, src))
+        lines.append(proto.line(Atom('C04'), Atom('rawrender'), Atom(c['lang']), strict, FUEL, src, G.data_w(c['data'])))
+    ans = proto.run_lines(lines)
+    out = []
+    for i in range(len(cases)):
+        a, b = ans[2 * i], ans[2 * i + 1]
+        v = proto.dec(a)
+        if str(v[0]) == 'ok':
+            comp = ['ok', model_stream(v[1] if len(v) > 1 else [])]
+        else:
+            comp = None if str(v[1]) == 'unmodelled' else ['err', str(v[1])]
+        vb = proto.dec(b)
+        if str(vb[0]) == 'err' and str(vb[1]) in ('badsyntax', 'baddirective', 'attribute'):
+            rend = ['err', 'syntax']
+        else:
+            rend = model_out(b)
+        out.append((comp, rend))
+    return out
+
+
+# --------------------------------------------------------------------------
 # character level: the scanners of the text templates (Model/TmplScan.lean)
 
 def escape_old(s):
@@ -744,7 +775,7 @@ def expected_old(toks):
     conv = []
     for t in toks:
         if t[0] == 'D':
-            conv.append(['D', t[1], (t[2] + '\n') if t[2] else None])
+            conv.append(['D', t[1], t[2] if t[2] else None])
         else:
             conv.append(t)
     return R.expected_stream(conv)
@@ -797,6 +828,10 @@ def valid_scan_case(case):
     return _balanced(toks)
 
 
+def _rstrip_vals(evs):
+    return [['SUB', e[1], e[2].rstrip() if e[2] is not None else None, _rstrip_vals(e[3])] if e[0] == 'SUB' else e for e in evs]
+
+
 def scan_oracle(case):
     """the documented constructs mean themselves, on the real code (no model involved: the source is
     the printed form of the tokens, the expectation their nesting)"""
@@ -817,6 +852,9 @@ def scan_oracle(case):
     elif check == 'scanprint-old':
         toks = case['tokens']
         got = R.real_parse('oldtext', print_old(toks))
+        if got[0] == 'ok':
+            # the line break the old syntax leaves at the end of a directive value is not documented
+            got = ['ok', _rstrip_vals(got[1])]
         exp = ['ok', expected_old(toks)]
         if got != exp:
             return bad('old syntax: text with \\# escapes, #directive lines and ## comment lines are parsed to themselves', exp, got)
@@ -943,6 +981,24 @@ def shard(arg):
                         res.disagreements.append({'stream': 'impl-exact-events', 'case': c, 'model': repr(impl_ex)[:600],
                                                   'real': repr(real_ex)[:600], 'source': G.source(c['lang'], c['nodes'])})
     if use_model:
+        tcases = [(c, pm) for c, pm in zip(cases, preps) if c['lang'] != 'markup']
+        for (c, pm), (comp, rend) in zip(tcases, raw_model([c for c, _ in tcases])):
+            if comp is None or rend is None:
+                res.count('raw-text:unmodelled')
+                continue
+            # the reader of the source text against the AST the source was printed from (model = model)
+            res.streams['raw-text-compile'] = res.streams.get('raw-text-compile', 0) + 1
+            if pm is not None and comp != pm:
+                res.disagreements.append({'stream': 'raw-text-compile', 'case': c, 'model': repr(comp)[:600],
+                                          'real': repr(pm)[:600], 'source': G.source(c['lang'], c['nodes'])})
+            base = G.render_real(c['lang'], c['nodes'], c['data'], lookup=lookup_of(c))
+            if base[0] == 'invalid':
+                continue
+            b2 = base if base[0] != 'err' else ['err', ERRMAP.get(base[1], base[1])]
+            res.streams['raw-text-render'] = res.streams.get('raw-text-render', 0) + 1
+            if rend != b2:
+                res.disagreements.append({'stream': 'raw-text-render', 'case': c, 'model': repr(rend)[:600],
+                                          'real': repr(b2)[:600], 'source': G.source(c['lang'], c['nodes'])})
         scan_part(res, random.Random('%s/%s/C04-scan' % (seed, idx)), max(20, n // 2))
     res.samples = [{'lang': c['lang'], 'source': G.source(c['lang'], c['nodes']), 'data': c['data']} for c in cases[:2]]
     return res
